@@ -8,3 +8,4 @@ for s in $SEEDS; do for p in $PROPS; do
   echo "seed=$s $p exit=$RC $(echo "$OUT" | tail -1 | sed 's/.*cases=/cases=/' | cut -c1-110)"
   [ $RC -ne 0 ] && echo "$OUT" | grep -A1 -E "^VIOLATION|^INCONCLUSIVE" | head -6 | cut -c1-300
 done; done
+exit 0
